@@ -45,10 +45,21 @@ end
 /-- the operator sets `_VersionMatch` can hold: the values of the generated `_convert_str2op` (`~` stores `(0,)`) -/
 def opTable : List (List Int) := Pkgcore.Generated.C01.str2op.map Prod.snd
 
+/-- a version string `isvalid_version_re` accepts, as a decidable check (implies C01's `WF`) -/
+def verOkB (v : Pkgcore.C01.Ver) : Bool :=
+  !v.comps.isEmpty && v.comps.all fun c => !c.isEmpty && c.all Char.isDigit
+
+/-- the version of an atom (if it has one) is valid -/
+def atomOkB (a : Pkgcore.C02.Atom) : Bool :=
+  match a.vop with
+  | none => true
+  | some (_, v, _) => verOkB v
+
 mutual
-/-- well-formed: every version node holds an operator set of the table -/
+/-- well-formed: every version node holds an operator set of the table, every atom a valid version -/
 def wf : Restr → Bool
   | .version vals _ _ _ _ => opTable.contains vals
+  | .atom a => atomOkB a
   | .flatten _ c _ => wf c
   | .strConv c => wf c
   | .pkgRestr _ _ _ _ c => wf c
